@@ -645,6 +645,22 @@ def divisor_chain(ctx, g, ai):
                         bad = "for factors[i] = %d, factors[j] = %d (%d does not divide %d) the guard %s skips the gcd/lcm fix-up: the result is not a divisor chain" % (a, b, a, b, show_atom(x)[:60])
         ctx.ob("T3-divisor-chain-guard", ai.name, "gcdx<-(a != 0 && b % a != 0)", "ok" if not bad else "violation",
                "the fix-up runs for every pair with a != 0 that is not already a divisor pair (guard evaluated on 600 integer pairs)" if not bad else bad, ai.span_of(bi))
+        # a diagonal entry can be 0 (free factor): `b % a` is only evaluated under a != 0 (`a != 0 || b % a != 0` compiles and panics on the first free factor)
+        badr = None
+        nrem = 0
+        # the MIR carries its own `divisor != 0` assertion in front of every % and /: the facts are taken at THAT assertion, so they are the program's guards
+        for b2, blk in ai.live_blocks():
+            t2 = blk["term"]
+            if t2["k"] != "assert" or t2["msg"]["k"] not in ("DivisionByZero", "RemainderByZero"):
+                continue
+            cond = strip(norm(ai.origin(t2["cond"]), g))
+            if not (contains(cond, lambda y: y == A) and contains(cond, lambda y: y == ("int", 0))):
+                continue
+            nrem += 1
+            if not any(x[0] == "rel" and implies(x, ("rel", "Ne", A, ("int", 0))) for x in (atom_norm(y, g) for y in ai.facts_at(b2))):
+                badr = "factors[i] is used as a divisor without a dominating factors[i] != 0: abelian_invariants panics as soon as a diagonal entry is 0 (a free factor)"
+        ctx.ob("T3-divisor-chain-guard", ai.name, "b % a <- a != 0", "ok" if nrem and not badr else "violation",
+               "every division by factors[i] is dominated by factors[i] != 0" if nrem and not badr else (badr or "no division by factors[i] found"), ai.span_of(bi))
         # the replacement values
         G = ("field", ("call", M + "gcdx", (A, B)), "0")
         st = {}
